@@ -2207,6 +2207,32 @@ XSLTEngineImpl::cloneToResultTree(
         case XalanNode::ATTRIBUTE_NODE:
             if (isElementPending() == true)
             {
+                // An attribute in a namespace needs its prefix declared
+                // on the element it is copied to.  If nothing declares
+                // the prefix there, add the declaration.
+                const XalanDOMString&   theNamespace = node.getNamespaceURI();
+                const XalanDOMString&   thePrefix = node.getPrefix();
+
+                if (theNamespace.empty() == false &&
+                    thePrefix.empty() == false &&
+                    equals(thePrefix, DOMServices::s_XMLString) == false &&
+                    getResultNamespaceForPrefix(thePrefix) == 0)
+                {
+                    const ECGetCachedString     theGuard(*m_executionContext);
+
+                    XalanDOMString&     theDeclaration = theGuard.get();
+
+                    theDeclaration = DOMServices::s_XMLNamespaceWithSeparator;
+                    theDeclaration += thePrefix;
+
+                    addResultAttribute(
+                        getPendingAttributesImpl(),
+                        theDeclaration,
+                        theNamespace,
+                        true,
+                        locator);
+                }
+
                 addResultAttribute(
                         getPendingAttributesImpl(),
                         node.getNodeName(),
